@@ -53,6 +53,10 @@ where
         .ok()
         .and_then(|s| s.parse().ok())
         .unwrap_or(cases);
+    let case_timeout_ms: u64 = std::env::var("LSMV_CASE_TIMEOUT_MS")
+        .ok()
+        .and_then(|s| s.parse().ok())
+        .unwrap_or(case_timeout_ms);
     let workers = workers().min(cases.max(1));
     let per = (cases + workers - 1) / workers;
     let start = Instant::now();
